@@ -23,7 +23,7 @@ DimPar(f, p, g) ==
     [] f = "Sedov" -> [rho0 |-> <<Q1, QAdd(<<-3, 1>>, p.omega), Q0, Q0>>,           \* rho = rho0 r^-omega
                        eblast |-> <<Q1, <<g - 1, 1>>, <<-2, 1>>, Q0>>,              \* energy per unit area / length / total
                        gamma |-> None0, omega |-> None0, geometry |-> None0]
-    [] f = "RiemannIG" -> [rl |-> dRho, rr |-> dRho, pl |-> dPrs, pr |-> dPrs, ul |-> dVel, ur |-> dVel,
+    [] f \in {"RiemannIG", "RiemannGen"} -> [rl |-> dRho, rr |-> dRho, pl |-> dPrs, pr |-> dPrs, ul |-> dVel, ur |-> dVel,
                            gl |-> None0, gr |-> None0, xd0 |-> Len_, xmin |-> Len_, xmax |-> Len_]
     [] f = "Cog1"  -> [rho0 |-> <<Q1, QSub(<<-3, 1>>, p.b), QAdd(p.b, QAdd(k, Q1)), Q0>>,
                        temp0 |-> <<Q0, p.b, QNeg(QSub(p.b, QMul(QSub(p.gamma, Q1), QAdd(k, Q1)))), Q1>>,
@@ -51,7 +51,7 @@ DimPar(f, p, g) ==
 
 (* dimension vectors of the returned fields *)
 DimField(f) ==
-  CASE f \in {"Noh", "Noh2", "Sedov", "RiemannIG", "EHEP", "Mader", "Guderley"} -> HydroFields @@ [xdet |-> Len_]
+  CASE f \in {"Noh", "Noh2", "Sedov", "RiemannIG", "RiemannGen", "EHEP", "Mader", "Guderley"} -> HydroFields @@ [xdet |-> Len_]
     [] f \in {"Cog1", "Cog8"} -> HydroFields @@ [temperature |-> dTmp]
     [] f = "EPpiston" -> HydroFields @@ [deviatoric_stress |-> dPrs]
     [] f \in {"Kenamond1", "Kenamond2", "Kenamond3", "DSDcyl"} -> [burntime |-> dTim]
